@@ -49,6 +49,31 @@ def readEvents (p : Params) : List Event := interp p p.dims p.dims readBlocks
 /-- What `convolve(cdim, kernel, n)` requests afterwards. -/
 def convolveEvents (p : Params) : List Event := interp p (convDims p) p.dims convolveBlocks
 
+/-- What `~splinetable` gives back to the allocator for a table of shape `cur` (`p.dims` after a plain load,
+    `convDims p` after the convolution) holding the auxiliary entries of `p`. -/
+def destroyEvents (p : Params) (cur : List Dim) : List Event := interp p cur cur destroyBlocks
+
+/-- The whole life of the table in its arena: construct from the file, convolve as declared, destroy. -/
+def lifeEvents (p : Params) : List Event := readEvents p ++ convolveEvents p ++ destroyEvents p (convDims p)
+
+/-! ## an arena that hands out more than was requested -/
+
+/-- `n` rounded up to a multiple of `A`. -/
+def alignUp (A n : Nat) : Nat := (n + (A - 1)) / A * A
+
+/-- The same sequence of requests as seen by an arena that uses `c n` bytes for a request of `n` bytes (alignment
+    padding, a block header): an allocation of `n` costs `c n`, and releasing it gives `c n` back. -/
+def costEvents (c : Nat → Nat) (es : List Event) : List Event :=
+  es.map fun e => match e with
+    | .alloc n => .alloc (c n)
+    | .free n => .free (c n)
+
+/-- every block starts at a multiple of `A` and occupies a multiple of `A` -/
+def padEvents (A : Nat) (es : List Event) : List Event := costEvents (alignUp A) es
+
+/-- every block is preceded by a header of `H` bytes and padded to a multiple of `A` -/
+def arenaEvents (A H : Nat) (es : List Event) : List Event := costEvents (fun n => alignUp A n + H) es
+
 /-! ## validation -/
 
 /-- `read_fits_core` accepts the shape of the file: in no dimension does the (generated) condition hold under which
